@@ -58,6 +58,15 @@ func hexv(c byte) (byte, bool) {
 	return 0, false
 }
 
+// threadKind names a thread without its numbers ("sender-4-1" -> "sender"): keys name the kind
+// of failure.
+func threadKind(t string) string {
+	if i := strings.IndexByte(t, '-'); i > 0 {
+		return t[:i]
+	}
+	return t
+}
+
 func (s *CatSc) Run(env *core.Env, st *core.Stats) (vs []core.Violation) {
 	ro := s.execute(env)
 	st.Eval(1)
@@ -113,11 +122,11 @@ func (s *CatSc) Run(env *core.Env, st *core.Stats) (vs []core.Violation) {
 	// ---- liveness: every lifecycle call returns within the fake-time budget
 	for _, c := range ro.calls {
 		if c.end == 0 {
-			add("liveness", c.thread+"-"+c.op, "%s: call #%d %s did not return (started at fake t=%d ns, run ended at %d ns, budget per call %d ns)", c.thread, c.idx, c.op, c.start, ro.simTime, int64(callBudget))
+			add("liveness", threadKind(c.thread)+"-"+c.op, "%s: call #%d %s did not return (started at fake t=%d ns, run ended at %d ns, budget per call %d ns)", c.thread, c.idx, c.op, c.start, ro.simTime, int64(callBudget))
 			return vs
 		}
 		if c.end-c.start > callBudget {
-			add("liveness", c.thread+"-"+c.op, "%s: call #%d %s took %d ns of fake time, budget %d", c.thread, c.idx, c.op, c.end-c.start, int64(callBudget))
+			add("liveness", threadKind(c.thread)+"-"+c.op, "%s: call #%d %s took %d ns of fake time, budget %d", c.thread, c.idx, c.op, c.end-c.start, int64(callBudget))
 			return vs
 		}
 	}
@@ -587,11 +596,28 @@ func (s *CatSc) checkOut(ro runOut, st *core.Stats, add func(clause, key, format
 			}
 		}
 	}
+	// what a process that has ended still took from its stdin (see runOutHelper)
+	var dropped []int64
+	for _, e := range ro.events {
+		if e.kind == "helper-dropped" && e.a > 0 {
+			dropped = append(dropped, e.t)
+		}
+	}
 	lastPos := map[string]int{}
 	for _, sd := range sends {
 		pos, arrived := linePos[sd.k]
 		if sd.err == nil {
 			st.Probe("out:send-ok")
+			intoTheVoid := false
+			for _, t := range dropped {
+				if t >= sd.start && t <= sd.end {
+					intoTheVoid = true
+				}
+			}
+			if intoTheVoid && !arrived {
+				st.Probe("out:send-accepted-by-a-helper-that-had-just-ended")
+				continue
+			}
 			if !arrived {
 				add("out-lines", "lost", "%s: Send of message %d returned nil but no such line reached the helper", sd.thread, sd.k)
 				return
@@ -631,11 +657,10 @@ func (s *CatSc) checkOut(ro runOut, st *core.Stats, add func(clause, key, format
 			}
 			switch {
 			case dead:
+				// what Send returns once the helper process is gone is not fixed by the
+				// property (the first write after the death is even accepted by the operating
+				// system's plumbing); that it returns at all is the liveness clause
 				st.Probe("out:send-after-helper-died")
-				if sd.err == nil {
-					add("send-dead-helper", "nil", "%s: Send returned nil although the helper had died before the call", sd.thread)
-					return
-				}
 			case !deadDuring:
 				if sd.err != nil {
 					add("send-open", "error", "%s: Send on the open out port with a live helper returned %v", sd.thread, sd.err)
